@@ -474,6 +474,42 @@ def R4_mint_admission(run):
         run.check("R4", "freeze-authority-gated", vals == {"false"},
                   "a mint with a freeze authority is accepted without a token badge (reaches %s)" % sorted(vals), loc=fn.loc(freeze_at.line),
                   detail="freeze authority && !badge => Ok(false)")
+    # every acceptance of a Token-2022 mint has passed the native-mint and the freeze-authority test: with the continuing edge of
+    # either test cut, no `Ok(true)` is reachable except the Token-program early accept
+    if has_native and has_freeze:
+        accept = set()
+        for bi, bb in enumerate(fn.blocks):
+            for si, st in enumerate(bb["s"]):
+                if st["k"] == "=" and st["p"]["l"] == 0 and "p" not in st["p"]:
+                    tt = pv._rvalue(st["rv"], bi, si, 0)
+                    if tt[0] == "agg" and tt[2] == "Ok" and const_val(dict(tt[3]).get("0")) == 1:
+                        accept.add(bi)
+        owner_edges = set()
+        for at in ats:
+            s_ = show(at.term)
+            if "owner" in s_ and "Token" in s_ and at.cond() and at.cond()[0] in ("Eq", "Ne"):
+                for tg in (at.true_targets if at.cond()[0] == "Eq" else at.false_targets):
+                    owner_edges.add((at.block, tg))
+        fl0 = preach.flow(fn, {"is_token_badge_initialized": False})
+        for gate, name in ((native_at, "native-mint"), (freeze_at, "freeze-authority")):
+            c = gate.cond()
+            cont = gate.false_targets        # both tests reject on their true side
+            cut = owner_edges | {(gate.block, tg) for tg in cont}
+            seen = set()
+            work = [0]
+            succ = fn.succ()
+            while work:
+                b = work.pop()
+                if b in seen:
+                    continue
+                seen.add(b)
+                for x in succ[b]:
+                    if (b, x) in cut or (b, x) not in fl0.edge_feasible:
+                        continue
+                    work.append(x)
+            run.check("R4", "accept-only-after:" + name, bool(accept) and not (accept & seen),
+                      "is_supported_token_mint can accept a Token-2022 mint without a badge before the %s test has been applied" % name, loc=fn.loc(gate.line),
+                      detail="no Ok(true) avoids the %s test" % name)
 
 
 def _ret_ok_values(fn, pv, start):
